@@ -130,12 +130,24 @@ def run (op impl : String) : Ans :=
       let vipTag := match vip with
         | none => "vip-nil"
         | some x => if x.length == 4 then "vip-4" else if x.length == 16 then "vip-16" else "vip-odd"
+      -- the other public entry points: LookupProduct (host table only) and LookupProductByVip
+      let rp : Option String → String := fun o => match o with | some p => "ok:" ++ p | none => "err"
+      let lpM := rp ((findHostRoute lc (buildHostRoute lc es) host).map (·.product))
+      let lpS := rp ((specFindHost lc es host).map (·.product))
+      let lvM := match vip with | none => "-" | some x => rp ((findVipRoute vips x).map (·.product))
+      let lvS := match vip with | none => "-" | some x => rp ((to16 x).bind fun k => vips.lookup k)
+      let implParts := impl.splitOn ";"
+      let implMain := implParts.headD ""
+      let implLp := (kv implParts "lp").getD "?"
+      let implLv := (kv implParts "lv").getD "?"
       let verdict :=
         if !wf then "skip"
-        else if impl == render spec then "ok"
-        else if bracket then "FAIL:ipv6-literal-host"
-        else "FAIL:" ++ stage
-      { model := render m
+        else if impl == "err:hostload" then "FAIL:host-file-rejected"
+        else if implMain != render spec then (if bracket then "FAIL:ipv6-literal-host" else "FAIL:" ++ stage)
+        else if implLp != lpS then (if bracket then "FAIL:ipv6-literal-host" else "FAIL:lookup-product-entry")
+        else if implLv != lvS then "FAIL:lookup-product-by-vip-entry"
+        else "ok"
+      { model := render m ++ ";lp=" ++ lpM ++ ";lv=" ++ lvM
         verdict := verdict
         tags := [stage, vipTag] ++ (if nwild ≥ 2 then ["nested-wild"] else [])
                 ++ (if host.contains ':' then ["port"] else [])
@@ -145,6 +157,10 @@ def run (op impl : String) : Ans :=
                 ++ (if host.any Char.isUpper then ["upper"] else [])
                 ++ (if ps.length < es.length then ["ignored-pattern"] else [])
                 ++ (if !wf then ["dup"] else [])
+                ++ (if kv f "ld" == some "1" then ["host-file-loader"] else [])
+                ++ (if kv f "pre" == some "1" then ["reloaded-over-decoy"] else [])
+                ++ (if es.any (fun e => e.route.tag == "" || e.route.product == "" || e.route.product.length > 30) then ["odd-names"] else [])
+                ++ (if host.length > 60 || es.any (·.host.length > 60) then ["long-name"] else [])
                 ++ (if vips.length > 0 then ["vip-table"] else [])
                 ++ (if es.length ≥ 2 then ["nt"] else []) }
     | _, _, _ => { model := "bad-op", verdict := "skip" }
